@@ -383,7 +383,10 @@ def prefix_states(depth):
     states = {}
     inits = e1.initials()
     frontier = []
-    for name in ('P0', 'P1'):
+    inits = dict(inits)
+    inits['P5'] = core.mkstate([('r1', [('a', 'integer'), ('b', 'string')], []),
+                                ('r2', [('a', 'integer'), ('c', 'string')], [{'a': 1, 'c': 'p'}, {'a': 3, 'c': 'q'}, {'a': 1, 'c': 'r'}])])
+    for name in ('P0', 'P1', 'P5'):
         st = inits[name]
         states[st.key()] = st
         frontier.append(st)
